@@ -118,9 +118,21 @@ def run(chk, R, tier, seed):
                                                                 -2])])
         other = items[:]
         rng.shuffle(other)
-        style = rng.choice(["shuffled", "normalized", "split-exp"])
+        style = rng.choice(["shuffled", "normalized", "split-exp", "arith",
+                            "arith"])
         if style == "shuffled":
             eb = T(other)
+        elif style == "arith":
+            # the same term built by term arithmetic from one-item terms
+            eb = None
+            for el, ex in other:
+                one = T([[el, abs(ex)]])
+                if eb is None:
+                    eb = one if ex > 0 else M(one, "reciprocal")
+                elif ex > 0:
+                    eb = OP("*", eb, one)
+                else:
+                    eb = OP("/", eb, one)
         elif style == "normalized":
             eb = M(T(other), "normalized")
         else:
@@ -156,6 +168,19 @@ def run(chk, R, tier, seed):
                      ["c", XR, [U(a), ["i", 1], U(b), num(ta, "fl")]],
                      ["c", XR, [U(a), ["i", 1], U(b), num(ta, "D")]],
                      "rate %s->%s %s as float and as Decimal" % (a, b, ta),
+                     "rate-eq-hash"))
+        # inputs that the 6-digit rounding alters
+        fl = rng.choice([1.1, 0.3, 2.7, 123.456, 0.07])
+        add(pair_sub(chk, "rate",
+                     ["c", XR, [U(a), ["i", 1], U(b), ["fl", fl.hex()]]],
+                     ["c", XR, [U(a), ["i", 1], U(b), ["D", repr(fl)]]],
+                     "rate %s->%s %r as float and as Decimal" % (a, b, fl),
+                     "rate-eq-hash"))
+        long = "1.0812344%d" % rng.randint(1, 4)
+        add(pair_sub(chk, "rate",
+                     ["c", XR, [U(a), ["i", 1], U(b), ["s", long]]],
+                     ["c", XR, [U(a), ["i", 1], U(b), ["s", "1.081234"]]],
+                     "rate %s->%s %s and 1.081234" % (a, b, long),
                      "rate-eq-hash"))
         r1 = ["c", XR, [U(a), ["i", 1], U(b), num(ta, "D")]]
         add(pair_sub(chk, "rate", r1,
